@@ -284,9 +284,63 @@ def locale_children(ctx):
         localechild.judge(ctx, md, f"settings-{k}", "locale")
 
 
+class _Locked:
+    """The worker context behind a lock, for monitors that judge from several threads."""
+
+    def __init__(self, ctx):
+        import threading
+        self._ctx, self._lock = ctx, threading.RLock()
+
+    def __getattr__(self, name):
+        v = getattr(self._ctx, name)
+        if not callable(v):
+            return v
+
+        def call(*a, **kw):
+            with self._lock:
+                return v(*a, **kw)
+        return call
+
+
+def thread_pass(ctx, shard=None):
+    """Forms with different settings converted at the same time in threads of one process: every result is judged exactly like a conversion
+    alone (title, id, version, root, submission ... are those of the form it was asked for, and the document is well formed)."""
+    import sys
+    import threading
+    rounds = 3 if ctx.tier == "quick" else 24
+    shard = ctx.shard if shard is None else shard
+    lctx = _Locked(ctx)
+    old = sys.getswitchinterval()
+    sys.setswitchinterval(1e-5)
+    try:
+        for rnd in range(rounds):
+            bar = threading.Barrier(4)
+
+            def work(k):
+                i = 50000 + (shard * 100 + rnd) * 4 + k
+                rng = ctx.rng("case", i)
+                try:
+                    bar.wait(timeout=30)
+                except threading.BrokenBarrierError:
+                    pass
+                try:
+                    run_case(lctx, rng, rng.getrandbits(len(SETTINGS)), i, "dict", 0, False, False)
+                except Exception as e:  # noqa: BLE001
+                    lctx.viol("threads:judging-a-concurrent-result-failed", f"{type(e).__name__}: {str(e)[:200]} (the result of a conversion beside others could not even be read)", {"klass": "threads"})
+            ts = [threading.Thread(target=work, args=(k,)) for k in range(4)]
+            for t_ in ts:
+                t_.start()
+            for t_ in ts:
+                t_.join(180)
+            ctx.ctr("concurrent_conversion_rounds")
+    finally:
+        sys.setswitchinterval(old)
+
+
 def run_shard(ctx):
     if ctx.shard == 0:
         locale_children(ctx)
+    thread_pass(ctx)
     pl = plan(ctx.tier, ctx.seed)
     for i in range(pl["n"]):
         if not ctx.mine(i):
@@ -311,6 +365,9 @@ def replay(w):
         if wit.get("klass") == "locale":
             locale_children(ctx)
             return
-        i = wit["i"]
+        i = wit.get("i", 0)
+        if wit.get("klass") == "threads" or i >= 50000:
+            thread_pass(ctx, shard=((i - 50000) // 4) // 100 if i >= 50000 else 0)  # the whole concurrent pass of that shard
+            return
         run_case(ctx, ctx.rng("case", i), wit["mask"], i, wit["channel"], wit["argmode"], wit["hostile_mode"], wit["use_alias"])
     return common.replay_with(PROP, w, chk)
